@@ -11,6 +11,6 @@ Init == s \in Shorts /\ lg \in Longs /\ v \in UNION {[1..n -> Alphabet] : n \in 
 Next == UNCHANGED <<s, lg, v>>
 Lemma == SpellingLemma(s, lg, v)
 \* -nVALUE: when the value is text and does not begin with `=` the glued form carries the same name and bytes
-Glued == (v # <<>> /\ IsText(v) /\ v[1] # EQ /\ FirstEq(v) = 0) =>
-            LexItem(<<DASH>> \o s \o v, {}, {s}).toks = <<[k |-> "short", n |-> s, adj |-> TRUE], [k |-> "word", v |-> v]>>
+Glued == (v # <<>> /\ v[1] # EQ) =>
+            LexItem(<<DASH>> \o s \o v, {}, {s}).toks = <<[k |-> "short", n |-> s, adj |-> TRUE], [k |-> "argword", v |-> v]>>
 =============================================================================
